@@ -69,8 +69,9 @@ CarryKeys == { <<1, 1, 3, 8, 255, 255, 251, 247>>,                 \* S = 1FFFF,
 KeySum(rd) == KtSum(rd, 1, Len(rd))
 KeyRdatas == {<<1, 1, 3, a>> \o b : a \in {1, 8, 13, 15}, b \in KeyBodies} \cup CarryKeys
 KeyCases  == {[k |-> "keytag", rd |-> r] : r \in KeyRdatas}
+Psub == << <<83, 117, 98>>, <<97, 66>>, <<67, 100>> >>          \* Sub.aB.Cd: splits into relative part + origin at 0..3 labels
 DsCases   == {[k |-> "ds", owner |-> o, key |-> r, dt |-> d] :
-                 o \in NamePats, r \in {x \in KeyRdatas : Thorough \/ Len(x) \in {8, 9, 69} \/ (x \in CarryKeys /\ Len(x) <= 9)}, d \in {1, 2, 4}}
+                 o \in NamePats \cup {Psub}, r \in {x \in KeyRdatas : Thorough \/ Len(x) \in {8, 9, 69} \/ (x \in CarryKeys /\ Len(x) <= 9)}, d \in {1, 2, 4}}
 
 (* ---- NSEC3 ---- *)
 Salts == {<<>>, <<171>>, <<1, 2, 3, 4, 65, 90, 97, 255>>}
